@@ -50,33 +50,35 @@ def job_ctor_equiv(res, model, n, nb, it):
     if model == 'lin':
         ang = z3.Real('angle'); pc += [ang > 0, ang < Fraction(1, 2)]
         st.pc = list(pc); s1 = ex.run1(st, 'e_new_rf_lin', [R['in'], R['out'], ang, fRF, it]); stat = s1.retval
-        s2 = ex.run1(s1, 'e_new_drf_lin', [R['in'], R['out'], ang, rev, fRF, Fraction(0), Fraction(0), Fraction(0), inc, 3, it]); dyn = s2.retval
+        dyn_paths = run_paths(ex, s1, 'e_new_drf_lin', [R['in'], R['out'], ang, rev, fRF, Fraction(0), Fraction(0), Fraction(0), inc, 3, it])
     else:
         V = z3.Real('V'); V0 = z3.Real('V0'); pc += [V > 1000, V0 >= 0, V0 < V]
         st.pc = list(pc); s1 = ex.run1(st, 'e_new_rf_sin', [R['in'], R['out'], rev, V, fRF, V0, it]); stat = s1.retval
-        s2 = ex.run1(s1, 'e_new_drf_sin', [R['in'], R['out'], rev, V, fRF, V0, Fraction(0), Fraction(0), Fraction(0), inc, 3, it]); dyn = s2.retval
-    account(res, ex, mod, [s2])
-    fs = read_fields(ex, s2, stat, R); fd = read_fields(ex, s2, dyn, R)
-    diffs = []
-    for name, k in FIELDS:
-        a, b = fs[name], fd[name]
-        if isinstance(a, int) and isinstance(b, int):
-            if a != b: diffs.append(z3.BoolVal(True))
-        else: diffs.append(tz(ex, a) != tz(ex, b))
-    def cex(m): return {'replay': 'ctor', 'model': model, 'n': n, 'nb': nb, 'it': it, 'static': {k: str(v)[:60] for k, v in fs.items()}, 'dynamic': {k: str(v)[:60] for k, v in fd.items()},
-                        'params': {str(d): mval(m, d) for d in ([fRF, rev] + ([ang] if model == 'lin' else [V, V0]))}}
-    prove(res, 'dynamic %s RF map with zero noise/modulation: members (_linear,_angle,_revolutionpart,_V_RF,_f_RF,_V0,_syncphase,_bl2phase) equal the static map\'s for all parameters' % model,
-          s2.pc, z3.Or(*diffs) if diffs else z3.BoolVal(False), key='dynamic-ctor-members-%s' % model, cex_fn=cex)
-    fo_s = ex.run1(s2, 'e_force', [stat]).retval; fo_d = ex.run1(s2, 'e_force', [dyn]).retval
-    os_ = get_reals(ex, s2, fo_s, nb * n); od = get_reals(ex, s2, fo_d, nb * n)
-    prove(res, 'dynamic %s RF map with zero noise/modulation: displacement field after construction equals the static map\'s (all %d entries, all parameters)' % (model, nb * n),
-          s2.pc, z3.Or(*[a != b for a, b in zip(os_, od)]), key='dynamic-ctor-field-%s' % model, cex_fn=cex)
-    lb_s = ex.load(s2, stat + int(R['off_lastbunch']), IntTy(32)); lb_d = ex.load(s2, dyn + int(R['off_lastbunch']), IntTy(32))
-    res.obs.append(Ob('dynamic %s RF map shares bunch maps like the static one (_lastbunch %s vs %s)' % (model, lb_d, lb_s), 'holds' if lb_s == lb_d else 'violated', key='dynamic-ctor-lastbunch'))
-    # modulation frequency: _modtimedelta == 2*pi*modtimeincrement
-    mtd = ex.dom.z(ex.load(s2, dyn + int(R['off_modtimedelta']), F32)); twopi = Fraction(6.283185307179586)
-    prove(res, 'dynamic %s RF map: modulation phase advance per step == 2*pi*modtimeincrement' % model, s2.pc, z3.Or(mtd - twopi * inc > Fraction(1, 10**9) * inc, mtd - twopi * inc < -Fraction(1, 10**9) * inc), key='dynamic-modtimedelta')
-    witness(res, 'static %s field depends on the machine parameters' % model, s2.pc, os_[0] != os_[n - 1])
+        dyn_paths = run_paths(ex, s1, 'e_new_drf_sin', [R['in'], R['out'], rev, V, fRF, V0, Fraction(0), Fraction(0), Fraction(0), inc, 3, it])
+    for s2 in dyn_paths:      # (a constructor that decides on its arguments forks: every path meets the obligations)
+      dyn = s2.retval
+      account(res, ex, mod, [s2])
+      fs = read_fields(ex, s2, stat, R); fd = read_fields(ex, s2, dyn, R)
+      diffs = []
+      for name, k in FIELDS:
+          a, b = fs[name], fd[name]
+          if isinstance(a, int) and isinstance(b, int):
+              if a != b: diffs.append(z3.BoolVal(True))
+          else: diffs.append(tz(ex, a) != tz(ex, b))
+      def cex(m): return {'replay': 'ctor', 'model': model, 'n': n, 'nb': nb, 'it': it, 'static': {k: str(v)[:60] for k, v in fs.items()}, 'dynamic': {k: str(v)[:60] for k, v in fd.items()},
+                          'params': {str(d): mval(m, d) for d in ([fRF, rev] + ([ang] if model == 'lin' else [V, V0]))}}
+      prove(res, 'dynamic %s RF map with zero noise/modulation: members (_linear,_angle,_revolutionpart,_V_RF,_f_RF,_V0,_syncphase,_bl2phase) equal the static map\'s for all parameters' % model,
+            s2.pc, z3.Or(*diffs) if diffs else z3.BoolVal(False), key='dynamic-ctor-members-%s' % model, cex_fn=cex)
+      fo_s = ex.run1(s2, 'e_force', [stat]).retval; fo_d = ex.run1(s2, 'e_force', [dyn]).retval
+      os_ = get_reals(ex, s2, fo_s, nb * n); od = get_reals(ex, s2, fo_d, nb * n)
+      prove(res, 'dynamic %s RF map with zero noise/modulation: displacement field after construction equals the static map\'s (all %d entries, all parameters)' % (model, nb * n),
+            s2.pc, z3.Or(*[a != b for a, b in zip(os_, od)]), key='dynamic-ctor-field-%s' % model, cex_fn=cex)
+      lb_s = ex.load(s2, stat + int(R['off_lastbunch']), IntTy(32)); lb_d = ex.load(s2, dyn + int(R['off_lastbunch']), IntTy(32))
+      res.obs.append(Ob('dynamic %s RF map shares bunch maps like the static one (_lastbunch %s vs %s)' % (model, lb_d, lb_s), 'holds' if lb_s == lb_d else 'violated', key='dynamic-ctor-lastbunch'))
+      # modulation frequency: _modtimedelta == 2*pi*modtimeincrement
+      mtd = ex.dom.z(ex.load(s2, dyn + int(R['off_modtimedelta']), F32)); twopi = Fraction(6.283185307179586)
+      prove(res, 'dynamic %s RF map: modulation phase advance per step == 2*pi*modtimeincrement' % model, s2.pc, z3.Or(mtd - twopi * inc > Fraction(1, 10**9) * inc, mtd - twopi * inc < -Fraction(1, 10**9) * inc), key='dynamic-modtimedelta')
+      witness(res, 'static %s field depends on the machine parameters' % model, s2.pc, os_[0] != os_[n - 1])
 
 def job_zero_amplitude_queue(res, model, n, it):
     """A1: with all amplitudes zero every precomputed (phase, amplitude) entry is bit-identical to (syncphase, 1) for every finite noise draw (z3 IEEE theory)"""
@@ -224,14 +226,15 @@ def job_calcmod(res, n, it):
     S = {}
     for nm in ('phasenoise', 'amplnoise', 'modampl', 'modtimedelta', 'syncphase'):
         v = z3.Real(nm); S[nm] = v; st.sym[drf + int(R['off_' + nm])] = (4, 'f', v)
-    s = ex.run1(st, 'e_drf_calcmod', [drf, 3]); q = s.retval
-    sz = ex.run1(s, 'e_queue_size', [q]).retval; fp = ex.run1(s, 'e_queue_front', [q]).retval; account(res, ex, mod, [s])
-    usin = ex.dom.uf('uf_sin', 1); bad = [z3.BoolVal(sz != 3 or len(draws) != 6)]
-    for i in range(min(sz, 3)):
-        ph = ex.dom.z(ex.load(s, fp + 8 * i, F32)); am = ex.dom.z(ex.load(s, fp + 8 * i + 4, F32))
-        bad.append(ph != S['syncphase'] + draws[2 * i] * S['phasenoise'] + S['modampl'] * usin(S['modtimedelta'] * i))
-        bad.append(am != 1 + draws[2 * i + 1] * S['amplnoise'])
-    prove(res, '__calcModulation(3): entry i == (syncphase + xi_i*phasenoise + modampl*sin(modtimedelta*i), 1 + eta_i*amplnoise), one pair of draws per step', list(s.pc) + [usin(z3.RealVal(0)) == 0], z3.Or(*bad), key='calc-modulation')
+    for s in run_paths(ex, st, 'e_drf_calcmod', [drf, 3]):      # every path (code that decides on the modulation parameters forks); the draws made on a path are the last 6 recorded
+      q = s.retval; draws_ = draws[-6:] if len(draws) >= 6 else draws
+      sz = ex.run1(s, 'e_queue_size', [q]).retval; fp = ex.run1(s, 'e_queue_front', [q]).retval; account(res, ex, mod, [s])
+      usin = ex.dom.uf('uf_sin', 1); bad = [z3.BoolVal(sz != 3 or len(draws_) != 6)]
+      for i in range(min(sz, 3)):
+          ph = ex.dom.z(ex.load(s, fp + 8 * i, F32)); am = ex.dom.z(ex.load(s, fp + 8 * i + 4, F32))
+          bad.append(ph != S['syncphase'] + draws_[2 * i] * S['phasenoise'] + S['modampl'] * usin(S['modtimedelta'] * i))
+          bad.append(am != 1 + draws_[2 * i + 1] * S['amplnoise'])
+      prove(res, '__calcModulation(3): entry i == (syncphase + xi_i*phasenoise + modampl*sin(modtimedelta*i), 1 + eta_i*amplnoise), one pair of draws per step', list(s.pc) + [usin(z3.RealVal(0)) == 0], z3.Or(*bad), key='calc-modulation')
 
 def job_queue_whole_run(res, model, n, it, S):
     """the constructor plans the modulation of the *whole* run: after construction with `steps` = S the queue holds exactly S entries and the last one carries the global
